@@ -24,6 +24,14 @@ UDP = {1: 20002, 2: 20003}
 TCP = {1: 9957, 2: 10000}
 
 
+FIELD_VARIANTS = [
+    {"position": 0}, {"position": 100}, {"position": 1}, {"power_consumption": 0, "electric_current": 0.0},
+    {"power_consumption": 65535, "electric_current": 297.9}, {"remaining_time": "00:00:00", "auto_shutdown": "00:00:00"},
+    {"temperature": 0.0, "target_temperature": 0}, {"temperature": 6553.5, "target_temperature": 255}, {"name": "x"},
+    {"device_id": "000000", "device_key": "00"}, {"ip_address": "0.0.0.0", "mac_address": "00:00:00:00:00:00"}, {"remote_id": ""},
+]
+
+
 def socket_on(port):
     import socket
 
@@ -201,6 +209,20 @@ class C19(Prop):
                     except Exception as exc:
                         acc.violation("constructor-crashed", f"{cname}({t.name}) raised {type(exc).__name__}", {"class": cname, "type": t.name})
                         continue
+                    if accepted and should and st is dv.DeviceState.ON:
+                        # its own category must be accepted whatever legitimate values the other fields carry
+                        for variant in FIELD_VARIANTS:
+                            kw2 = dict(kw)
+                            kw2.update({k2: v2 for k2, v2 in variant.items() if k2 in kw2})
+                            if kw2 == kw:
+                                continue
+                            acc.ev()
+                            acc.distinct()
+                            try:
+                                cls(**kw2)
+                            except Exception as exc:
+                                acc.violation("class-refuses-own-category", f"{cname}({t.name}) with {variant} raised {type(exc).__name__}: {exc}",
+                                              {"class": cname, "type": t.name, "fields": str(variant)})
                     if accepted != should:
                         acc.violation("class-accepts-wrong-category",
                                       f"{cname} {'accepted' if accepted else 'refused'} {t.name} (category {t.category.name})",
